@@ -28,7 +28,7 @@ def all_cases(tier):
         ("Gearbox(10->4,msb)", S.c_gearbox, 10, 4, True), ("Gearbox(10->4,lsb)", S.c_gearbox, 10, 4, False),
         ("Gearbox(2->10,lsb)", S.c_gearbox, 2, 10, False), ("Gearbox(20->32,msb)", S.c_gearbox, 20, 32, True), ("Gearbox(10->2,msb)", S.c_gearbox, 10, 2, True),
         ("Gearbox(4->8,msb)", S.c_gearbox, 4, 8, True), ("Gearbox(8->4,lsb)", S.c_gearbox, 8, 4, False),   # power-of-two storage: level wraps if one word too many is accepted
-        ("Delay(2)", S.c_delay, 2), ("Delay(3)", S.c_delay, 3),
+        ("Delay(2)", S.c_delay, 2), ("Delay(3)", S.c_delay, 3), ("ClockDomainCrossing(usr->usr,buffered)", S.c_cdc_same, "usr", True), ("ClockDomainCrossing(usr->usr)", S.c_cdc_same, "usr", False),
         ("Pipeline(buf+buf)", S.c_pipeline, "buf+buf"), ("Pipeline(fifo+buf)", S.c_pipeline, "fifo+buf"), ("Pipeline(buf+fifo+buf)", S.c_pipeline, "buf+fifo+buf"),
         ("BufferizeEndpoints", S.c_bufferize),
     ]
